@@ -334,6 +334,12 @@ func (db *Backend) GetObject(bucketName, objectName string, rangeRequest *gofake
 			return fmt.Errorf("gofakes3: could not unmarshal object at %q/%q: %v", bucketName, objectName, err)
 		}
 
+		// bson decodes byte slices as sub-slices of v, and v points into the
+		// database's memory map, which is only valid inside this transaction:
+		// the object is read (and its hash used) after it has ended.
+		t.Contents = append([]byte(nil), t.Contents...)
+		t.Hash = append([]byte(nil), t.Hash...)
+
 		return nil
 	})
 
